@@ -23,6 +23,12 @@ var l2Parallel = 8
 // bound on the number of paths explored per harness (all threads, all fixpoint iterations)
 var l2MaxPaths = 60000
 
+func init() {
+	if s := os.Getenv("SYMGO_L2MAXPATHS"); s != "" {
+		fmt.Sscanf(s, "%d", &l2MaxPaths)
+	}
+}
+
 type initLoc struct {
 	Shape  *Shape
 	Leaves []*Term
@@ -62,6 +68,7 @@ type l2Config struct {
 type l2Run struct {
 	e         *Engine
 	reg       *l2Registry
+	regs      map[string]*l2Registry // one registry per configuration (names of setup objects are configuration specific)
 	fn        *ssa.Function
 	configs   map[string]*l2Config
 	nDecls    int
@@ -77,7 +84,7 @@ func (r *l2Run) runPath(prefix []bool, target int) (restart bool) {
 	e.resetPath()
 	e.trackCells = true
 	e.prefix = prefix
-	e.ev = &eventCtx{reg: r.reg, target: target, byName: map[string]*Cell{}, mapByName: map[string]*MapVal{}, chanByName: map[string]*ChanVal{},
+	e.ev = &eventCtx{reg: newRegistry(), target: target, byName: map[string]*Cell{}, mapByName: map[string]*MapVal{}, chanByName: map[string]*ChanVal{},
 		setupCells: map[int]*Cell{}, initVals: map[string]Value{}, options: map[string]bool{}, run: r}
 	defer func() {
 		e.ev = nil
@@ -193,8 +200,8 @@ func (r *l2Run) collect() {
 		th.Edges[b.Dst] = &l2Edge{Tid: b.Tid, Src: b.Src, Dst: b.Dst, Ops: b.Ops, Guard: b.Guard, Terminal: b.Terminal}
 	}
 	// initial state of mutable setup locations
-	for loc := range r.reg.mutable {
-		switch r.reg.locKind[loc] {
+	for loc := range ev.reg.mutable {
+		switch ev.reg.locKind[loc] {
 		case "cell":
 			if _, ok := cfg.Init[loc]; ok {
 				continue
@@ -210,7 +217,7 @@ func (r *l2Run) collect() {
 					continue
 				}
 				sh, leaves := e.flattenInit(ev.setupSnap[id])
-				r.reg.addShape(loc, sh)
+				ev.reg.addShape(loc, sh)
 				cfg.Init[loc] = initLoc{sh, leaves}
 			}
 		case "map":
@@ -229,9 +236,9 @@ func (r *l2Run) collect() {
 						continue
 					}
 					ck := e.canonKey(en.K)
-					ki := r.reg.addMapKey(loc, ck, en.K)
+					ki := ev.reg.addMapKey(loc, ck, en.K)
 					sh, leaves := e.flattenInit(en.V)
-					r.reg.addShape(fmt.Sprintf("%s{%d}", loc, ki), sh)
+					ev.reg.addShape(fmt.Sprintf("%s{%d}", loc, ki), sh)
 					im[ki] = initLoc{sh, leaves}
 				}
 				cfg.InitMaps[loc] = im
@@ -246,9 +253,9 @@ func (r *l2Run) collect() {
 									continue
 								}
 								ck := e.canonKey(en.K)
-								ki := r.reg.addMapKey(loc, ck, en.K)
+								ki := ev.reg.addMapKey(loc, ck, en.K)
 								sh, leaves := e.flattenInit(en.V)
-								r.reg.addShape(fmt.Sprintf("%s{%d}", loc, ki), sh)
+								ev.reg.addShape(fmt.Sprintf("%s{%d}", loc, ki), sh)
 								im[ki] = initLoc{sh, leaves}
 							}
 						}
@@ -349,14 +356,16 @@ func runL2Harness(prog *ssa.Program, pkg *ssa.Package, name, mode, solverName st
 		}
 		sort.Slice(res.Functions, func(i, j int) bool { return res.Functions[i].Name < res.Functions[j].Name })
 	}()
-	run := &l2Run{e: e, reg: newRegistry(), fn: fn}
+	run := &l2Run{e: e, reg: newRegistry(), fn: fn, regs: map[string]*l2Registry{}}
 	for iter := 1; ; iter++ {
 		if iter > 30 {
 			panic(engineErr("L2 registry fixpoint did not converge: %v", run.reg.changes))
 		}
 		res.Iterations = iter
-		run.reg.changed = false
-		run.reg.changes = nil
+		for _, rg := range run.regs {
+			rg.changed = false
+			rg.changes = nil
+		}
 		run.configs = map[string]*l2Config{}
 		run.nDecls = -1
 		restart := false
@@ -370,6 +379,26 @@ func runL2Harness(prog *ssa.Program, pkg *ssa.Package, name, mode, solverName st
 					break
 				}
 				if run.paths > l2MaxPaths {
+					if os.Getenv("SYMGO_PROGRESS") != "" {
+						type kv struct {
+							k string
+							n int
+						}
+						var top []kv
+						for k, v := range run.reg.shapes {
+							top = append(top, kv{k, len(v)})
+						}
+						_ = top
+						sort.Slice(top, func(i, j int) bool { return top[i].n > top[j].n })
+						for i := 0; i < len(top) && i < 12; i++ {
+							fmt.Fprintf(os.Stderr, "  shapes %-60s %d\n", top[i].k, top[i].n)
+							if i < 3 {
+								for _, sh := range run.reg.shapes[top[i].k] {
+									fmt.Fprintf(os.Stderr, "      %s\n", sh.Key())
+								}
+							}
+						}
+					}
 					panic(engineErr("L2 exploration exceeded the path bound (%d paths): the shared state of this code forks too often for thread-modular exploration", l2MaxPaths))
 				}
 			}
@@ -380,10 +409,20 @@ func runL2Harness(prog *ssa.Program, pkg *ssa.Package, name, mode, solverName st
 				run.nDecls = run.lastDecls
 			}
 		}
-		if os.Getenv("SYMGO_PROGRESS") != "" {
-			fmt.Fprintf(os.Stderr, "[%s] L2 iteration %d: paths=%d changed=%v %v\n", name, iter, run.paths, run.reg.changed, run.reg.changes)
+		anyChanged := false
+		var changes []string
+		for _, rg := range run.regs {
+			if rg.changed {
+				anyChanged = true
+				if len(changes) < 20 {
+					changes = append(changes, rg.changes...)
+				}
+			}
 		}
-		if !restart && !run.reg.changed {
+		if os.Getenv("SYMGO_PROGRESS") != "" {
+			fmt.Fprintf(os.Stderr, "[%s] L2 iteration %d: paths=%d configs=%d changed=%v %v\n", name, iter, run.paths, len(run.regs), anyChanged, changes)
+		}
+		if !restart && !anyChanged {
 			break
 		}
 	}
@@ -404,7 +443,7 @@ func runL2Harness(prog *ssa.Program, pkg *ssa.Package, name, mode, solverName st
 		if shardM > 1 && ki%shardM != shardR {
 			continue
 		}
-		b := newBMC(e, run.reg, run.configs[k], name)
+		b := newBMC(e, run.regs[k], run.configs[k], name)
 		b.prepare(&res)
 		bs = append(bs, b)
 	}
